@@ -1527,3 +1527,29 @@ def b_track_files(tier, rnd):
             cases.append((_mfile(), GhostFile(f)))
     return {"rule": "track chunks of 0, 1, 2 two-parameter channel events (9 status bytes, seeded data, velocity 0 included) "
                     "with one-byte delta times, file positioned at offset 1", "cases": cases}
+
+
+@battery("bar_at")
+def b_bar_at(tier, rnd):
+    import copy
+    from mingus.containers.note_container import NoteContainer
+    cases = []
+    for b in _lift_bars(rnd):
+        if any(e[2] is None for e in b.bar):
+            continue
+        for at in (0.0, 0.25, 0.5, 0.75, 1.0, 0.3):
+            cases.append((copy.deepcopy(b), NoteContainer(["B", "D"]), at))
+    return {"rule": "bars without rests from the 'bar_lift' family x 6 beats (hit and miss) x one container", "cases": cases}
+
+
+@battery("bar_setitem")
+def b_bar_setitem(tier, rnd):
+    import copy
+    from mingus.containers.note_container import NoteContainer
+    cases = []
+    for b in _lift_bars(rnd):
+        if any(e[2] is None for e in b.bar):
+            continue
+        for i in range(-len(b.bar) - 1, len(b.bar) + 1):
+            cases.append((copy.deepcopy(b), i, NoteContainer(["B", "D"])))
+    return {"rule": "bars without rests from the 'bar_lift' family x every index incl. one out of range on each side", "cases": cases}
